@@ -86,6 +86,8 @@ def _case(draw):
     steps.append({'op': 'run', 'workers': draw(st.sampled_from([1, 2, 3])),
                   'sched': draw(st.one_of(st.just(('choices', [])), sc.schedules(max_len=60)))})
     case = {'n': n, 'edges': edges, 'active0': active0, 'steps': steps}
+    if draw(st.integers(0, 1)) == 0:
+        case['order'] = draw(st.permutations(list(range(n))))
     if draw(st.integers(0, 2)) == 0:
         # a coarse clock: consecutive time() calls may return the same value
         case['ticks'] = draw(st.lists(st.sampled_from([0, 0, 1]), min_size=1, max_size=12))
@@ -96,27 +98,59 @@ def strategy(tier):
     return _case()
 
 
+WORKER_FIRST = ('pct', [0, 9, 8, 7, 6], [])     # a queued task completes before the master goes on
+SHAPES3 = {
+    'chain-hh': [(1, 0, 'h'), (2, 1, 'h')], 'chain-sh': [(1, 0, 's'), (2, 1, 'h')],
+    'chain-hs': [(1, 0, 'h'), (2, 1, 's')], 'chain-ss': [(1, 0, 's'), (2, 1, 's')],
+    'fork': [(1, 0, 'h'), (2, 0, 's')], 'join': [(2, 0, 'h'), (2, 1, 's')],
+    'triangle': [(1, 0, 'h'), (2, 0, 's'), (2, 1, 'h')],
+}
+
+
 def enumerations(tier):
-    """Small deterministic histories: every chain/fork of 3 tasks x every single
-    lost/failed task between two runs."""
-    def gen():
-        shapes = {
-            'chain-hh': [(1, 0, 'h'), (2, 1, 'h')], 'chain-sh': [(1, 0, 's'), (2, 1, 'h')],
-            'chain-hs': [(1, 0, 'h'), (2, 1, 's')], 'chain-ss': [(1, 0, 's'), (2, 1, 's')],
-            'fork': [(1, 0, 'h'), (2, 0, 's')], 'join': [(2, 0, 'h'), (2, 1, 's')],
-            'triangle': [(1, 0, 'h'), (2, 0, 's'), (2, 1, 'h')],
-        }
-        run = {'op': 'run', 'workers': 1, 'sched': ('choices', [])}
-        run2 = {'op': 'run', 'workers': 2, 'sched': ('choices', [])}
-        for _name, edges in shapes.items():
+    """Small deterministic histories over every 3-task shape: run; lose any non-empty
+    subset of the persisted files, optionally break one task; run again (every insertion
+    order of the tasks in thorough, three of them in quick; master-first and worker-first
+    schedule, 1 or 2 workers); recover; run.  Plus all schedules of the second run with
+    <= 1 pre-emption for two chains on one worker (quick) / <= 2 pre-emptions for all
+    shapes on 1 and 2 workers (thorough)."""
+    import itertools
+    run = {'op': 'run', 'workers': 1, 'sched': ('choices', [])}
+
+    def mids():
+        for lost in itertools.product([0, 1], repeat=3):
+            if not any(lost):
+                continue
+            loses = [{'op': 'lose', 'i': i} for i in range(3) if lost[i]]
+            yield loses, None
             for i in range(3):
-                for mid in ([{'op': 'lose', 'i': i}],
-                            [{'op': 'lose', 'i': i}, {'op': 'fail', 'i': i, 'how': 'raise'}],
-                            [{'op': 'lose', 'i': i}, {'op': 'fail', 'i': i, 'how': 'failed'}]):
-                    for second in (run, run2):
-                        steps = [run] + mid + [second, {'op': 'recover', 'i': i}, run]
-                        yield {'n': 3, 'edges': edges, 'active0': 3, 'steps': steps}
-    return [('three-task-histories', gen, True)]
+                for how in (('raise', 'failed') if tier == 'thorough' else ('raise',)):
+                    yield loses + [{'op': 'fail', 'i': i, 'how': how}], i
+
+    def gen():
+        seconds = [run, {'op': 'run', 'workers': 2, 'sched': ('choices', [])},
+                   {'op': 'run', 'workers': 1, 'sched': WORKER_FIRST},
+                   {'op': 'run', 'workers': 2, 'sched': WORKER_FIRST}]
+        for _name, edges in SHAPES3.items():
+            for mid, broken in mids():
+                tail = [{'op': 'recover', 'i': broken}, run] if broken is not None else [run]
+                for order in (itertools.permutations(range(3)) if tier == 'thorough'
+                              else ((0, 1, 2), (2, 1, 0), (2, 0, 1))):
+                    for second in seconds:
+                        yield {'n': 3, 'edges': edges, 'active0': 3, 'order': list(order),
+                               'steps': [run] + mid + [second] + tail}
+
+    def gen_dfs():
+        bound = 2 if tier == 'thorough' else 1
+        names = list(SHAPES3) if tier == 'thorough' else ['chain-hh', 'chain-sh']
+        for name in names:
+            for mid, broken in mids():
+                if tier != 'thorough' and len(mid) > 3:
+                    continue
+                for workers in ((1, 2) if tier == 'thorough' else (1,)):
+                    second = {'op': 'run', 'workers': workers, 'sched': ('dfs', bound)}
+                    yield {'n': 3, 'edges': SHAPES3[name], 'active0': 3, 'steps': [run] + mid + [second]}
+    return [('three-task-histories', gen, True), ('three-task-second-run-all-schedules', gen_dfs, True)]
 
 
 def _transitive(deps, i, memo):
@@ -149,7 +183,9 @@ def _run(case, active, state, root, step, clock):
         task.depends_on.update(task.hard)
         task.soft_depends_on.update(task.soft)
     hgraph, sgraph = DepGraph(), DepGraph()
-    for task in tasks:                     # as cambronne.common.build_graphs
+    order = [i for i in (case.get('order') or ()) if i < active]
+    order += [i for i in range(active) if i not in order]
+    for task in [tasks[i] for i in order]:     # as cambronne.common.build_graphs (job order is free)
         hgraph.add_node(task)
         sgraph.add_node(task)
         for dep in task.depends_on:
@@ -170,7 +206,7 @@ def _run(case, active, state, root, step, clock):
     ctrl, how, value = vsched.run_controlled(sc.make_schedule(step['sched']), body,
                                              clock_start=clock, ticks=case.get('ticks'))
     obs = {'how': how, 'value': value, 'verdict': ctrl.verdict, 'clock': ctrl.clock,
-           'before': before, 'after': None,
+           'before': before, 'after': None, 'decisions': ctrl.decisions,
            'executions': {i: t.executions for i, t in enumerate(tasks)}}
     if how == 'returned':
         out_env = RealEnv()
@@ -240,9 +276,11 @@ def _judge_run(case, active, obs, runno, fails):
                                  f'{before.get(f"t{i}")} to {after.get(f"t{i}")}'))
 
 
-def run_case(case):
-    out = Outcome()
+def _history(case, out, dfs_choices=None):
+    """Interpret one history.  ``dfs_choices``: schedule substituted for the step whose
+    schedule is ('dfs', P); returns (runs, chain_rerun, ops, decisions of that step)."""
     root = tempfile.mkdtemp(prefix='vv-c04-', dir='/dev/shm' if os.path.isdir('/dev/shm') else '/var/tmp')
+    decisions = None
     try:
         state = {'outcomes': {f't{i}': 'done' for i in range(case['n'])}, 'versions': {}}
         active = case['active0']
@@ -255,7 +293,12 @@ def run_case(case):
         for step in case['steps']:
             ops.add(step['op'])
             if step['op'] == 'run':
+                is_dfs = step['sched'][0] == 'dfs'
+                if is_dfs:
+                    step = dict(step, sched=('choices', list(dfs_choices or [])))
                 obs = _run(case, active, state, root, step, clock)
+                if is_dfs:
+                    decisions = obs['decisions']
                 clock = obs['clock'] + 1
                 runs += 1
                 if obs['how'] != 'returned':
@@ -280,18 +323,61 @@ def run_case(case):
                     out.labels.append('lost-existing-file')
             elif step['op'] == 'add':
                 active = min(case['n'], active + 1)
-        out.labels.extend(sorted(ops - {'run'}))
-        if case.get('ticks'):
-            out.labels.append('coarse-clock')
-        if runs >= 2:
-            out.labels.append('multi-run')
-        if runs >= 2 and chain_rerun:
-            out.nontrivial = True
-            out.labels.append('nontrivial')
-        out.evals = max(1, runs)
     finally:
         shutil.rmtree(root, ignore_errors=True)
+    return runs, chain_rerun, ops, decisions
+
+
+def run_case(case):
+    out = Outcome()
+    dfs_steps = [k for k, st_ in enumerate(case['steps'])
+                 if st_['op'] == 'run' and st_['sched'][0] == 'dfs']
+    if dfs_steps:
+        bound = case['steps'][dfs_steps[0]]['sched'][1]
+        seen_sigs = set()
+        keys = set()
+
+        def run(choices, structure_only=False):
+            sub = Outcome()
+            runs, chain, _ops, decisions = _history(case, sub, dfs_choices=choices)
+            if not structure_only:
+                for fail in sub.failures:
+                    if fail.signature not in seen_sigs:
+                        seen_sigs.add(fail.signature)
+                        steps = [dict(st_, sched=('choices', list(choices))) if k == dfs_steps[0] else st_
+                                 for k, st_ in enumerate(case['steps'])]
+                        fail.case = dict(case, steps=steps)
+                        out.failures.append(fail)
+                if chain:
+                    keys.add(repr(choices))
+            return decisions or []
+        count = 0
+        for _ in vsched.dfs_schedules(run, bound):
+            count += 1
+        out.evals = count
+        out.extra_keys = sorted(jsonio_digest((case['edges'], case['steps'], k)) for k in keys)
+        out.nontrivial = bool(keys)
+        out.labels.append(f'dfs-P{bound}')
+        out.info = {'schedules': count}
+        return out
+    runs, chain_rerun, ops, _dec = _history(case, out)
+    out.labels.extend(sorted(ops - {'run'}))
+    if case.get('ticks'):
+        out.labels.append('coarse-clock')
+    if case.get('order'):
+        out.labels.append('insertion-order-permuted')
+    if runs >= 2:
+        out.labels.append('multi-run')
+    if runs >= 2 and chain_rerun:
+        out.nontrivial = True
+        out.labels.append('nontrivial')
+    out.evals = max(1, runs)
     return out
+
+
+def jsonio_digest(obj):
+    from vlib import jsonio
+    return jsonio.digest(obj)
 
 
 MANIFEST = {
